@@ -297,7 +297,15 @@ def vm_worker(args):
     res.sites.add('vm-timeline')
     world.configure()
     p = Parser()
-    assert p.parse(text), p.get_errors()
+    if args.get('after'):
+        # the same compiler object had a text rejected first (the way a ScriptJob is reused): the delays of the next script are all there
+        assert not p.parse(args['after']), 'accepted: %s' % args['after']
+        if not p.parse(text):
+            res.violation('vm-timeline|rejected after a rejected text', 'the script is rejected (%s) by a compiler whose previous text %r had been rejected\n  script: %s'
+                          % (p.get_errors().strip(), args['after'], text), inputs={'script': text, 'after': args['after']}, replayed=True)
+            return res
+    else:
+        assert p.parse(text), p.get_errors()
     prog = p.get_program()
     slots = [(inst, inst.param0 - SENT_BASE) for inst in prog
              if isinstance(inst.param0, int) and not isinstance(inst.param0, bool) and inst.param0 > SENT_BASE]
@@ -613,6 +621,12 @@ def run(tier, seed):
     for mode, text, sids, due, tag in vm:
         items.append({'kind': 'vm', 'mode': mode, 'text': text, 'sids': sids, 'due': due, 'tag': tag,
                       'max_paths': 2000 if q else 20000, 'budget_s': 25 if q else 200})
+    for k, first in enumerate(('set "M" begin stage row nosuch end', 'repeat 2 begin time nosuch end', 'define r with a begin set "M" begin hue nosuch',
+                               'time 5 set "M" begin time nosuch', 'if {1 > 0} begin time 2 wait hue nosuch')):
+        for text, sids, due in (('time %d on "A" time %d off "A" on "B"' % (S + 1, S + 2), [1, 2], [[1], [1, 2], [1, 2, 2]]),
+                                ('time %d on all off all' % (S + 1), [1], [[1], [1, 1]])):
+            items.append({'kind': 'vm', 'mode': 'logical', 'text': text, 'sids': sids, 'due': due, 'tag': 'after-rejected-%d' % k, 'after': first,
+                          'max_paths': 1000 if q else 20000, 'budget_s': 15 if q else 200})
     for delays, works in (([0.3, 0.6], [0, 0]), ([0.3, 0.6], [0.1, 0.7]), ([0.25, 0.25, 0.0], [0, 0.3, 0]), ([1.0], [1.5]), ([0.1, 0.1, 0.1], [0, 0, 0])):
         for tick in (0.25, 0.1, 1.5, '0.25'):
             items.append({'kind': 'sched', 'delays': delays, 'works': works, 'tick': tick, 'preempt': 2 if q else 3,
